@@ -181,6 +181,8 @@ impl DispatchMod {
             block: Box::new(Block {
                 brace_token: token::Brace::default(),
                 stmts: vec![
+                    // the number of arguments the caller passed, before padding with Null
+                    syn::parse_quote! { let argc = args.len(); },
                     // if args.len() < max_args
                     Stmt::Expr(
                         syn::Expr::If(ExprIf {
